@@ -3,7 +3,7 @@ import re
 from . import secretlib, textgen, linegen
 from .textcommon import TEXT_MODEL_DEPS as MODEL_DEPS, TEXT_TRUSTED as TRUSTED_BASE, TEXT_ASSUMPTIONS as ASSUMPTIONS  # noqa
 
-COQ_DEPS = ["lib/Alloc.v", "lib/Str.v", "lib/Rx.v", "lib/RxFacts.v", "lib/RxSub.v", "gen/G_rx.v", "gen/G_text_consts.v", "model/TextModel.v", "model/TextProofs.v", "model/ValueProofs.v"]
+COQ_DEPS = ["lib/Alloc.v", "lib/Str.v", "lib/Rx.v", "lib/RxFacts.v", "lib/RxSub.v", "gen/G_rx.v", "gen/G_text_consts.v", "model/TextModel.v", "model/TextProofs.v", "model/ValueProofs.v", "model/Findings.v"]
 RULE = ("paired runs: the same sequence of recognised line forms (every single-secret template, optional parts, indentation, quoting, trailing context) with two assignments of secret values that have the same format "
         "class (and md5 salt length, $9$ validity) and the same equality pattern; output lines and log records at INFO and above must be identical; plus standalone $1$/$9$ tokens between arbitrary keywords; "
         "non-trivial = a pair of runs whose secret assignments differ")
